@@ -1,6 +1,8 @@
 import Pyunicorn.Lemmas.VisibilityExt
 import Pyunicorn.Lemmas.VisibilityBetw
 import Pyunicorn.Lemmas.VisibilityFloat
+import Pyunicorn.Lemmas.VisibilityF32
+import Pyunicorn.Lemmas.VisibilityDist
 import Pyunicorn.Generated.ArithC14
 /-!
 # C14 — visibility graphs realise the geometric visibility criterion
@@ -1188,5 +1190,193 @@ theorem kernel_loops_use_source_expressions (N i : Nat) :
     abFutStart, abFutStop, tbPastStop, tbFutStart, tbFutStop, e1, e2, e3, e4, Int.toNat_natCast,
     and_self]
 end
+
+/-! # Round 4
+
+1. **`rndF32` is binary32 round-to-nearest-even** (no overflow): `floorLog2` is the floor of the
+   binary logarithm, the result is a binary32 number, no binary32 number is closer, ties go to
+   the even significand, binary32 numbers are fixed points, the function is odd and
+   **monotone** (also across exponent boundaries and into the subnormal range).  Hence
+   `nvg_float_subgraph` applies to the model's own rounding: `nvg_f32_subgraph`,
+   `nvg_f32_links_are_visible`, and for integer series on the default timings without any
+   hypothesis on the arithmetic (`nvg_f32_integer_series`).
+2. **`pathLen` is a breadth-first search**: the specification used by the closeness /
+   betweenness theorems equals `Net.dist`, C03's model of `Network.path_lengths()`
+   (frontier BFS with early exit; C03's lemmas imported). -/
+
+/-- `floorLog2 p q = ⌊log₂ (p / q)⌋` -/
+theorem floorLog2_is_floor_log2 (p q : Nat) (hp : 0 < p) (hq : 0 < q) :
+    pow2 (floorLog2 p q) ≤ (p : Rat) / (q : Rat) ∧ (p : Rat) / (q : Rat) < pow2 (floorLog2 p q + 1) ∧
+      ∀ e : Int, pow2 e = (2 : Rat) ^ e :=
+  ⟨(floorLog2_spec p q hp hq).1, (floorLog2_spec p q hp hq).2, pow2_eq_zpow⟩
+
+/-- the exponent `rndF32` selects: `2^(e+23) ≤ |q| < 2^(e+24)` in the normal range, `e = -149`
+below it -/
+theorem rndF32_exponent (q : Rat) (h : 0 < q) :
+    pow2 (lg q) ≤ q ∧ q < pow2 (lg q + 1) ∧ expOf q = max (lg q - 23) (-149) ∧
+      rndF32 q = ((roundEven (q / pow2 (expOf q)) : Int) : Rat) * pow2 (expOf q) := by
+  refine ⟨(lg_spec q h).1, (lg_spec q h).2, ?_, rndF32_pos q h⟩
+  unfold expOf; split <;> omega
+
+/-- no integer is closer than `roundEven m`, and a tie is resolved to the even integer -/
+theorem roundEven_nearest_integer_ties_to_even (m : Rat) :
+    (∀ z : Int, |((roundEven m : Int) : Rat) - m| ≤ |(z : Rat) - m|) ∧
+      (m - (m.floor : Rat) = 1 / 2 → roundEven m % 2 = 0) :=
+  ⟨roundEven_nearest_int m, roundEven_tie m⟩
+
+/-- `rndF32` is odd: the sign is handled separately, as in IEEE 754 -/
+theorem rndF32_odd (q : Rat) : rndF32 (-q) = -rndF32 q := rndF32_neg q
+
+/-- **the value of `rndF32` is a binary32 number** (`m · 2^e`, `|m| < 2^24`, `e ≥ -149`;
+the overflow threshold is outside the model) -/
+theorem rndF32_is_binary32 (q : Rat) : IsF32 (rndF32 q) := rndF32_isF32 q
+
+/-- **round to nearest**: no binary32 number is closer to `q` than `rndF32 q` -/
+theorem rndF32_nearest (q f : Rat) (hf : IsF32 f) : |rndF32 q - q| ≤ |f - q| :=
+  rndF32_nearest' q f hf
+
+/-- binary32 numbers are fixed points (the conversion of float32 caller data is exact) -/
+theorem rndF32_fixes_binary32 (f : Rat) (hf : IsF32 f) : rndF32 f = f := rndF32_fix f hf
+
+/-- error at most half a unit in the last place; relative error `2^-24` in the normal range -/
+theorem rndF32_error (q : Rat) (h : 0 < q) :
+    |rndF32 q - q| ≤ pow2 (expOf q) / 2 ∧ (-126 ≤ lg q → |rndF32 q - q| ≤ q / 2 ^ 24) :=
+  ⟨rndF32_half_ulp q h, rndF32_rel q h⟩
+
+/-- **`rndF32` is monotone**, across exponent boundaries and through the subnormal range -/
+theorem rndF32_monotone : MonoRnd rndF32 := rndF32_monoRnd
+
+/-- **the float kernel of the model never invents a link** — `nvg_float_subgraph` for the
+model's own binary32 rounding, no hypothesis on the rounding left -/
+theorem nvg_f32_subgraph (x : List Val) (t : List Rat) (mv : Option (List Bool)) (N : Nat)
+    (g : Good x t mv N) (hex : ExactDiffs rndF32 x t N) :
+    ∃ logR logE, kernelNR rndF32 x t mv N = .ok logR ∧ kernelN x t mv N = .ok logE ∧
+      ∀ p, p ∈ logR → p ∈ logE :=
+  kernelNR_subgraph rndF32 rndF32_monoRnd x t mv N g hex
+
+/-- the same with the hypothesis in terms of the data: every difference of two timings and of
+two present samples is a binary32 number -/
+theorem nvg_f32_links_are_visible (x : List Val) (t : List Rat) (N : Nat)
+    (g : Good x t (some (nanMask x)) N)
+    (ht : ∀ i k, i < k → k < N → IsF32 (t.getD k 0 - t.getD i 0))
+    (hx : ∀ i k, i < k → k < N → ∀ dx, vsub (valAt x k) (valAt x i) = some dx → IsF32 dx) :
+    ∃ logR, kernelNR rndF32 x t (some (nanMask x)) N = .ok logR ∧
+      ∀ a b, (a, b) ∈ logR → a < b ∧ b < N ∧ NVisible x t a b :=
+  nvg_float_links_are_visible rndF32 rndF32_monoRnd x t N g (exactDiffs_of_isF32 x t N ht hx)
+
+/-- **integer series on the default timings** (`|x_k| < 2^23`, at most `2^24` samples, any
+missing samples): the constructor's natural kernel in binary32 arithmetic terminates without
+error and every link it writes joins two mutually visible samples — no hypothesis about the
+arithmetic remains. -/
+theorem nvg_f32_integer_series (x : List Val) (hx : IntSeries x) (hN : x.length ≤ 2 ^ 24) :
+    ∃ logR, kernelNR rndF32 x (defaultTimings x.length) (some (nanMask x)) x.length = .ok logR ∧
+      ∀ a b, (a, b) ∈ logR →
+        a < b ∧ b < x.length ∧ NVisible x (defaultTimings x.length) a b :=
+  nvg_float_links_are_visible rndF32 rndF32_monoRnd x _ _
+    (defaultTimings_good x _ (by intro m hm; cases hm; simp [nanMask]))
+    (exactDiffs_intSeries x hx x.length hN)
+
+example : IntSeries [some 3, none, some (-2), some 5] := by
+  intro r hr
+  simp only [List.mem_cons, Option.some.injEq, List.not_mem_nil, or_false, reduceCtorEq, false_or] at hr
+  rcases hr with rfl | rfl | rfl
+  · exact ⟨3, by norm_num, by norm_num⟩
+  · exact ⟨-2, by norm_num, by norm_num⟩
+  · exact ⟨5, by norm_num, by norm_num⟩
+example : IsF32 (3 / 8) := ⟨3, -3, by omega, by norm_num, by simp [pow2]; norm_num⟩
+/-- a tie between two binary32 numbers goes to the even significand; the exponent boundary
+`2^24 - 1/2 ↦ 2^24`; the smallest subnormal; half of it ↦ 0 -/
+example : rndF32 (16777217 : Rat) = 16777216 ∧ rndF32 (16777219 : Rat) = 16777220 ∧
+    rndF32 ((33554431 : Rat) / 2) = 16777216 ∧ rndF32 (pow2 (-149)) = pow2 (-149) ∧
+    rndF32 (pow2 (-150)) = 0 ∧ rndF32 (3 * pow2 (-150)) = 2 * pow2 (-149) := by decide +kernel
+
+/-- **`pathLen` is the breadth-first search of C03's model of `Network.path_lengths()`**, so
+`retarded_closeness`, `advanced_closeness` and the pair dependencies are stated about distances
+computed by code -/
+theorem pathLen_is_bfs (N : Nat) (A : List (List Bool)) (i j : Nat) (hi : i < N) (hj : j < N) :
+    pathLen N A i j = Net.dist N (adjFn A) i j :=
+  pathLen_eq_dist N A i j hi hj
+
+/-- the two closeness measures through the BFS distances -/
+theorem closeness_by_bfs (N : Nat) (A : List (List Bool)) (i : Nat) (hi : i < N) :
+    retClose N A i = closeOf ((List.range i).map (Net.dist N (adjFn A) i)) ∧
+    advClose N A i = closeOf ((List.range' (i + 1) (N - (i + 1))).map (Net.dist N (adjFn A) i)) := by
+  constructor
+  · simp only [retClose]
+    congr 1
+    apply List.map_congr_left
+    intro j hj
+    rw [List.mem_range] at hj
+    exact pathLen_eq_dist N A i j hi (by omega)
+  · simp only [advClose]
+    congr 1
+    apply List.map_congr_left
+    intro j hj
+    rw [List.mem_range'_1] at hj
+    exact pathLen_eq_dist N A i j hi (by omega)
+
+example : Net.dist 4 (adjFn (adjMat 4 [(0, 1), (1, 2)])) 0 2 = some 2 ∧
+    Net.dist 4 (adjFn (adjMat 4 [(0, 1), (1, 2)])) 0 3 = none := by decide +kernel
+
+/-- **`rndF32 (2^k · q) = 2^k · rndF32 q`** while neither side is subnormal: a rescaling of the
+values or of the time unit by a power of two changes no rounding decision of the float kernel
+(why the extreme-but-exact rescalings of the correspondence must leave the compiled kernels'
+answers unchanged) -/
+theorem rndF32_pow2_rescaling (q : Rat) (k : Int) (h1 : q ≠ 0 → -126 ≤ lg |q|)
+    (h2 : q ≠ 0 → -126 ≤ lg |q| + k) : rndF32 (pow2 k * q) = pow2 k * rndF32 q :=
+  rndF32_scale q k h1 h2
+
+example : rndF32 (pow2 40 * (1 / 3)) = pow2 40 * rndF32 (1 / 3) := by decide +kernel
+/-- in the subnormal range the identity fails: `2^-149 · 3/2` is a tie, `3/2` is a float -/
+example : rndF32 (pow2 (-149) * (3 / 2)) ≠ pow2 (-149) * rndF32 (3 / 2) := by decide +kernel
+
+/-- **the slope comparisons of the float kernel are invariant under power-of-two rescalings**
+`x ↦ 2^a x`, `t ↦ 2^c t` as long as no difference and no quotient is or becomes subnormal
+(`NoUfl`): the rounded slope of the rescaled series is `2^(a-c)` times the rounded slope, so every
+decision `slope_k < slope_j` of `kernelNR rndF32` is the same. -/
+theorem f32_slope_comparisons_pow2_invariant (x : List Val) (t : List Rat) (a c : Int) (i k j : Nat)
+    (hk : NoUfl (t.getD k 0 - t.getD i 0) c)
+    (hkx : ∀ dx, vsub (valAt x k) (valAt x i) = some dx →
+      NoUfl dx a ∧ NoUfl (rndF32 dx / rndF32 (t.getD k 0 - t.getD i 0)) (a - c))
+    (hj : NoUfl (t.getD j 0 - t.getD i 0) c)
+    (hjx : ∀ dx, vsub (valAt x j) (valAt x i) = some dx →
+      NoUfl dx a ∧ NoUfl (rndF32 dx / rndF32 (t.getD j 0 - t.getD i 0)) (a - c)) :
+    slopeValR rndF32 (x.map (Option.map (pow2 a * ·))) (t.map (pow2 c * ·)) i k
+        = (slopeValR rndF32 x t i k).map (pow2 (a - c) * ·) ∧
+    vlt (slopeValR rndF32 (x.map (Option.map (pow2 a * ·))) (t.map (pow2 c * ·)) i k)
+        (slopeValR rndF32 (x.map (Option.map (pow2 a * ·))) (t.map (pow2 c * ·)) i j)
+      = vlt (slopeValR rndF32 x t i k) (slopeValR rndF32 x t i j) :=
+  ⟨slopeValR_scale x t a c i k hk hkx, slopeCmpR_scale x t a c i k j hk hkx hj hjx⟩
+
+example : NoUfl (7 / 10) 40 ∧ NoUfl (7 / 10) (-100) := by
+  have h : lg |(7 / 10 : Rat)| = -1 := by decide +kernel
+  constructor <;> constructor <;> intro _ <;> rw [h] <;> omega
+
+/-- **horizontal graph of float64 callers' data**: the constructor converts the series to
+binary32 (`to_cy(time_series, FIELD)`, i.e. `rndF32` on every sample).  Whenever that
+conversion merges no two distinct samples (`KeepsApart`), the kernel and the constructor return
+on the converted series exactly what they return on the caller's values — and therefore the
+matrix realises `HVisible` of the *caller's* values.  (Monotonicity of `rndF32` is what turns
+"injective on the samples" into "order preserving".) -/
+theorem hvg_float64_callers (x : List Val) (h : KeepsApart x) (N : Nat) (tm : Option (List Rat))
+    (missing : Bool) :
+    kernelH (x.map (Option.map rndF32)) N = kernelH x N ∧
+    classLog (x.map (Option.map rndF32)) tm missing true = classLog x tm missing true ∧
+    ∃ A, classMat (x.map (Option.map rndF32)) tm true true = .ok A ∧
+      ∀ a b, a < x.length → b < x.length →
+        (Mat.at A a b = true ↔ (a < b ∧ HVisible x a b) ∨ (b < a ∧ HVisible x b a)) := by
+  have ho := ordOn_rndF32 x h
+  refine ⟨kernelH_ordOn rndF32 x ho N, classLog_hvg_ordOn rndF32 x ho tm missing, ?_⟩
+  obtain ⟨A, hA, hiff⟩ := class_hvg_matrix_iff x tm
+  refine ⟨A, ?_, hiff⟩
+  rw [class_matrix_is_log] at hA ⊢
+  rw [classLog_hvg_ordOn rndF32 x ho tm true, List.length_map]
+  exact hA
+
+example : KeepsApart [some (1 / 3), none, some (2 / 3), some (1 / 3)] := by
+  intro a b ha hb
+  simp only [List.mem_cons, Option.some.injEq, List.not_mem_nil, or_false, reduceCtorEq,
+    false_or] at ha hb
+  rcases ha with rfl | rfl | rfl <;> rcases hb with rfl | rfl | rfl <;> decide +kernel
 
 end Pyunicorn.Visibility
